@@ -1636,7 +1636,11 @@ RULE = ('per case: one connection (client or server endpoint) with a finished ca
         'HEADERS (padded / with priority), WINDOW_UPDATE and RST_STREAM on the finished stream, empty and '
         'padding-only DATA; normal DATA padded 0/3/40) and (b) for half of the cases 1-3 frames of a catalogue '
         'of ~55 plausible-and-wrong frames of every type 0x00-0x0a plus random type/flags/id/length frames and '
-        'raw random bytes; all bytes re-cut at 0-9 PRNG points; the loop runs 0/0.1/0.5 s or not at all between '
+        'raw random bytes, plus frame CLASSES with arbitrary legal field values: GOAWAY (any 32-bit error code x '
+        'last_stream_id {0, highest seen, below an in-flight stream, 2^31-1} x opaque debug data {none, ASCII, '
+        'UTF-8, ill-formed UTF-8, \\xff\\xfe\\x00\\x80..., all 256 byte values}), RST_STREAM with any error code, '
+        'PING with opaque bytes, SETTINGS with unknown ids and any values, WINDOW_UPDATE with any legal increment; '
+        'all bytes re-cut at 0-9 PRNG points; the loop runs 0/0.1/0.5 s or not at all between '
         'steps.  distinct = distinct (endpoint, set of h2 event classes produced after the prelude, h2 '
         'ProtocolError?, closed?, exception classes) tuples; every data_received call is one model trace.  '
         'AGGREGATE cases (8 quick / 200 thorough + 2 corpus): one connection at the minimum windows '
